@@ -14,6 +14,7 @@
   new_resource_iterator      : source indexed (drained when source_delete), target processed after the index exists, every
                                other stream passes as the same object
 """
+from contracts import findings_natives as KF
 from contracts.common import fn_named
 from contracts.common import havoc_mutable_scalars, same_stream, Item, mk_resource, mk_package2, run_spec, ghost_row, expect_no_raise_or_same, _b
 from contracts.streams import calls, effect_names
@@ -778,4 +779,5 @@ ITEMS = [
     Item('indexer', sym_indexer, [], P + 'join.py::join_aux.indexer'),
     Item('process_target', sym_process_target, [], P + 'join.py::join_aux.process_target'),
     Item('new_resource_iterator', sym_new_resource_iterator, [], P + 'join.py::join_aux.new_resource_iterator'),
+    Item('recorded-findings', None, [('bounded', KF.nat_findings_c11)], 'dataflows/processors/join.py::KeyCalc.__init__'),
 ]
